@@ -14,18 +14,18 @@ import (
 
 // Ctx is handed to every property's Run function.
 type Ctx struct {
-	Tier    string // "quick" | "thorough"
-	Seed    int64
-	Rand    *rand.Rand
-	WorkDir string // private scratch directory, removed by the caller
+	Tier     string // "quick" | "thorough"
+	Seed     int64
+	Rand     *rand.Rand
+	WorkDir  string // private scratch directory, removed by the caller
 	CacheDir string // /verif/.cache (key pool etc.), may be empty
 
-	out      *bufio.Writer
-	outFile  *os.File
-	n        int
-	hist     map[string]int
-	samples  []json.RawMessage
-	notes    []string
+	out        *bufio.Writer
+	outFile    *os.File
+	n          int
+	hist       map[string]int
+	samples    []json.RawMessage
+	notes      []string
 	exhaustive bool
 }
 
